@@ -5,7 +5,8 @@ CONSTANTS MaxPre = 1 MaxN = 5
   Posts <- PostsMid
   FlowKinds = {"bare", "ctx"}
   Drivers = {"run", "fill", "split"}
-  Places = {"alone", "first", "middle", "last"}
+  Places = {"alone", "first", "middle", "last", "afterstop"}
+  StopFlag = "per_branch"
   CopyMode = "per_branch"
   Bufs <- BufQuick
 INVARIANT DriversAgree
